@@ -169,6 +169,9 @@ func (ev *evaluator) words(line string) ([]string, bool) {
 				if i < n && line[i] == '\'' {
 					return nil, false // doubled quote: not in the restricted syntax
 				}
+			case c == '$' && (i+1 >= n || line[i+1] == ' '):
+				w += "$" // os.Expand leaves a dollar that no name follows
+				i++
 			case c == '$':
 				j := i + 1
 				braces := j < n && line[j] == '{'
